@@ -830,6 +830,13 @@ pub fn parse_stream(d: &[u8], start: usize) -> Result<RefStream, PErr> {
     if si.total != 0 && decoded > si.total {
         hard.push(format!("decoded {} samples, more than STREAMINFO total {}", decoded, si.total));
     }
+    // RFC 9639 8.2: the frame-size bounds are either 0 (unknown) or bounds of the frames in the stream
+    if let Some(f) = frames.iter().find(|f| si.max_frame != 0 && (f.end - f.start) as u32 > si.max_frame) {
+        strict.push(format!("RFC9639 8.2: frame {} has {} bytes, STREAMINFO maximum frame size is {}", f.number, f.end - f.start, si.max_frame));
+    }
+    if let Some(f) = frames.iter().find(|f| si.min_frame != 0 && ((f.end - f.start) as u32) < si.min_frame) {
+        strict.push(format!("RFC9639 8.2: frame {} has {} bytes, STREAMINFO minimum frame size is {}", f.number, f.end - f.start, si.min_frame));
+    }
     Ok(RefStream {
         meta,
         frames,
